@@ -207,7 +207,7 @@ def local_time_apis(ctx, report, RULE='C11.R3', only=None):
                                    'of the package reads it as UTC' % (recv, recv))
 
 
-def fields_written_as_stored(ctx, report, RULE='C11.R8', kinds=('ts',), modules=None, what=('in place of attribute',),
+def fields_written_as_stored(ctx, report, RULE='C11.R8', kinds=('ts',), modules=None, what=('in place of attribute',), links=False,
                              title='timestamp fields: the composer hands the stored attribute to the primitive, which alone decides the sentinel'):
     """The primitives are exact (R1, R5), a field is exact only if the value of the attribute is what reaches them: a composer that
     writes ``CONSTANT if self.attr is None else self.attr`` never writes the sentinel the parser turns back into None (or writes a
@@ -231,6 +231,14 @@ def fields_written_as_stored(ctx, report, RULE='C11.R8', kinds=('ts',), modules=
             if d.kind == 'binding' and any(w in d.detail for w in what) and d.a is not None and d.b is not None and \
                     (kinds is None or d.a.kind in kinds or d.b.kind in kinds):
                 report.add(RULE, '%s@%s' % (c.construct, diff_key(d)), d.detail)
+        if links:
+            # a length field the parser uses as the size of what follows, written from a stored number instead of the size of what is
+            # written (C01.R1 reports the same): the composed blob is malformed as soon as the stored number is stale
+            for u in cmpn.unknown:
+                if u.startswith('length link of ') and 'composer value' in u:
+                    report.add(RULE, '%s@link[%s]' % (c.construct, u.split(':')[0][len('length link of '):]),
+                               'the parser uses this field as the length of the data after it, but the composer does not derive the value from the '
+                               'size of the data it writes (%s)' % u.split(':', 1)[1].strip()[:120])
     report.count(RULE, n)
     return n
 
